@@ -26,6 +26,7 @@ import (
 	"sort"
 	"strconv"
 	"strings"
+	"sync"
 	"sync/atomic"
 	"syscall"
 	"time"
@@ -1865,9 +1866,6 @@ func c08ScalingFinish(c *Ctx, st *c08ScaleState) {
 				}
 				for _, q := range one.probes {
 					noteProbe(q)
-					if q.Truncated {
-						r.hist("scaling-probe-rerun-alone-stopped-at-budget")
-					}
 				}
 				nr.probes = append(nr.probes, one.probes...)
 			}
@@ -1884,6 +1882,10 @@ func c08ScalingFinish(c *Ctx, st *c08ScaleState) {
 		byKind[res.j.kind] = append(byKind[res.j.kind], res)
 	}
 	var table []map[string]interface{}
+	// pass A: judge the first (concurrent) pass of every kind
+	firstOf := map[string]map[string]float64{}
+	vsOf := map[string][]verdict{}
+	var remeasure []string
 	for _, kind := range kinds {
 		rs := byKind[kind]
 		first := map[string]float64{}
@@ -1894,19 +1896,65 @@ func c08ScalingFinish(c *Ctx, st *c08ScaleState) {
 				first[fmt.Sprintf("%d/%s", p.N, p.API)] = p.CpuMs
 			}
 		}
+		firstOf[kind] = first
 		vs := judge(kind, rs, first)
-		timing := false
+		vsOf[kind] = vs
 		for _, v := range vs {
 			if isTiming(v.cls) {
-				timing = true
+				remeasure = append(remeasure, kind)
+				break
 			}
 		}
-		if timing {
-			// measure the whole kind once more, alone, before reporting a timing verdict; verdicts that
-			// are not about time (panic, unlocated error, crash) stand from either pass
+	}
+	// pass B: a kind with a timing verdict is measured once more before anything is reported, when the
+	// rest of this harness has finished: the jobs of one kind strictly one after the other (the growth
+	// exponent compares consecutive sizes).  Thorough tier: one kind at a time.  Quick tier: up to three
+	// kinds side by side - the verdicts are on CPU time, which three single-threaded processes on this
+	// many cores do not disturb, and the machine is shared with other checks anyway.
+	again := map[string][]c08JobRes{}
+	{
+		workers := 3
+		if c.Thorough {
+			workers = 1
+		}
+		var wg sync.WaitGroup
+		var mu sync.Mutex
+		queue := make(chan string, len(remeasure))
+		for _, k := range remeasure {
+			queue <- k
+		}
+		close(queue)
+		for w := 0; w < workers; w++ {
+			wg.Add(1)
+			go func() {
+				defer wg.Done()
+				for kind := range queue {
+					rs := measureAlone(kind, byKind[kind])
+					mu.Lock()
+					again[kind] = rs
+					mu.Unlock()
+				}
+			}()
+		}
+		wg.Wait()
+	}
+	// pass C: report, in the fixed order of the kinds
+	for _, kind := range kinds {
+		rs := byKind[kind]
+		first := firstOf[kind]
+		vs := vsOf[kind]
+		if rs2, ok := again[kind]; ok {
+			// verdicts that are not about time (panic, unlocated error, crash) stand from either pass
 			r.hist("scaling-probe-rerun-alone")
 			firstVs := vs
-			rs = measureAlone(kind, rs)
+			rs = rs2
+			for _, res := range rs {
+				for _, q := range res.probes {
+					if q.Truncated {
+						r.hist("scaling-probe-rerun-alone-stopped-at-budget")
+					}
+				}
+			}
 			vs = judge(kind, rs, first)
 			have := map[string]bool{}
 			for _, v := range vs {
